@@ -1,23 +1,41 @@
 import ImathVerif.Model.Half
+import ImathVerif.Model.HalfFunction
 /-!
 Line-protocol driver for the half model (C01/C02/C03).
 
-  f2h_blocks <lo> <hi>   one line per block b in [lo,hi): hash of f2h over floats b*2^16 .. b*2^16+65535
-  h2f_all                 65,536 lines: h2f h (hex)
-  gen_all                 65,536 lines: h2fGen h (hex)
-  f2h <hex>..             f2h of each argument
-  round_all <n>           65,536 lines: roundN n h
-  class_all               65,536 lines: 7 classification bits + neg
+  f2h_blocks <lo> <hi> [canon]  one line per block b in [lo,hi): hash of f2h over floats b*2^16 .. b*2^16+65535
+                                (canon = 1: NaN results are first mapped to sign|0x7e00)
+  f2h_range <lo> <hi> [canon]   f2h of every float pattern in [lo,hi)
+  h2f_all                       65,536 lines: h2f h (hex)
+  gen_all                       65,536 lines: h2fGen h (hex)
+  f2h <hex>.. / h2f <hex>..     single conversions
+  round_all <n>                 65,536 lines: roundN n h
+  class_all                     65,536 lines: 7 classification bits + neg
+  lut <f> <dmin> <dmax>         65,536 lines: halfFunction table, f in id|neg|round3, domain as half bit patterns (hex),
+                                default, +inf, -inf, nan values 0x10000..0x10003
+  arith_eval                    stdin lines "h <a> <b>" (half rhs) or "f <a> <floatbits>" -> "<a+=b> <a-=b> <a*=b> <a/=b>"
+  arith_list                    stdin line 1: half patterns, line 2: float patterns; per a: "<hash over half rhs> <hash over float rhs>"
+  arith_blocks <lo> <hi>        per a in [lo,hi): hash over all 65,536 half right-hand sides x 4 operators
+
+Arithmetic is the property's own right-hand side `half (float (a) op float (b))`:
+`f2h ((Float32.ofBits (h2f a) op Float32.ofBits (h2f b)).toBits)`.  Lean's
+`Float32.toBits` maps every NaN to 0x7fc00000, so NaN results read 0x7e00 here.
 -/
-open ImathVerif.Half
+open ImathVerif.Half ImathVerif.HalfFunction
 
 def hex (n : Nat) : String := String.ofList (Nat.toDigits 16 n)
 
-def blockHash (b : Nat) : UInt64 := Id.run do
+/-- NaN results -> sign|0x7e00 (the F16C comparison of C02 ignores NaN payloads) -/
+@[inline] def canon16 (h : Nat) : Nat :=
+  if h &&& 0x7c00 = 0x7c00 ∧ h &&& 0x3ff ≠ 0 then (h &&& 0x8000) ||| 0x7e00 else h
+
+def blockHash (canon : Bool) (b : Nat) : UInt64 := Id.run do
   let mut h : UInt64 := 1469598103934665603
   let base := b * 65536
   for i in [0:65536] do
-    h := (h ^^^ (f2h (base + i)).toUInt64) * 1099511628211
+    let r := f2h (base + i)
+    let r := if canon then canon16 r else r
+    h := (h ^^^ r.toUInt64) * 1099511628211
   return h
 
 def parseHex (s : String) : Nat :=
@@ -31,31 +49,112 @@ def classBits (h : Nat) : Nat :=
   (if isZero h then 8 else 0) + (if isNan h then 16 else 0) + (if isInfinity h then 32 else 0) +
   (if isNegative h then 64 else 0)
 
+/-- run `job blk` for blk in [lo,hi) on 16 dedicated tasks; results in block order -/
+def parBlocks (lo hi : Nat) (job : Nat → UInt64) : IO (Array UInt64) := do
+  let nt := 16
+  let tasks ← (List.range nt).mapM fun t => IO.asTask (prio := .dedicated) do
+    let mut acc : Array UInt64 := #[]
+    let mut blk := lo + t
+    while blk < hi do
+      acc := acc.push (job blk)
+      blk := blk + nt
+    return acc
+  let mut arrs : Array (Array UInt64) := #[]
+  for t in tasks do
+    match t.get with
+    | .ok arr => arrs := arrs.push arr
+    | .error e => throw e
+  let mut res : Array UInt64 := #[]
+  for i in [0:hi - lo] do
+    res := res.push (arrs[i % nt]!)[i / nt]!
+  return res
+
+/-! ### compound arithmetic: half (float (a) op float-rhs) -/
+
+@[inline] def fop (op : Nat) (x y : Float32) : Float32 :=
+  match op with
+  | 0 => x + y
+  | 1 => x - y
+  | 2 => x * y
+  | _ => x / y
+
+/-- `a op= rhs` where `fa`, `fb` are the binary32 patterns of `float (a)` and of the right-hand side -/
+@[inline] def arithF (op : Nat) (fa fb : UInt32) : Nat :=
+  f2h (fop op (Float32.ofBits fa) (Float32.ofBits fb)).toBits.toNat
+
+def h2fTable : Array UInt32 := (Array.range 65536).map fun h => (h2f h).toUInt32
+
+def arithRowHash (tbl : Array UInt32) (a : Nat) (rhs : Array UInt32) : UInt64 := Id.run do
+  let mut h : UInt64 := 1469598103934665603
+  let fa := tbl[a]!
+  for fb in rhs do
+    for op in [0:4] do
+      h := (h ^^^ (arithF op fa fb).toUInt64) * 1099511628211
+  return h
+
+def lutParams (fname : String) (dmin dmax : Nat) : Params Nat :=
+  { f := match fname with
+      | "neg" => neg
+      | "round3" => roundN 3
+      | _ => id,
+    domainMin := dmin, domainMax := dmax,
+    defaultValue := 0x10000, posInfValue := 0x10001, negInfValue := 0x10002, nanValue := 0x10003 }
+
+/-- whitespace-separated tokens (spaces, tabs, CR/LF) -/
+def words (s : String) : List String :=
+  let step := fun (st : List String × List Char) (c : Char) =>
+    if c == ' ' || c == '\n' || c == '\r' || c == '\t' then
+      (if st.2.isEmpty then st.1 else String.ofList st.2.reverse :: st.1, [])
+    else (st.1, c :: st.2)
+  let st := s.toList.foldl step ([], [])
+  (if st.2.isEmpty then st.1 else String.ofList st.2.reverse :: st.1).reverse
+
+partial def readLines (h : IO.FS.Stream) (acc : Array String) : IO (Array String) := do
+  let l ← h.getLine
+  if l.isEmpty then return acc else readLines h (acc.push l)
+
 def main (args : List String) : IO Unit := do
   let out ← IO.getStdout
   match args with
-  | ["f2h_blocks", lo, hi] =>
-    let lo := lo.toNat!; let hi := hi.toNat!
-    let nt := 16
-    let tasks ← (List.range nt).mapM fun t => IO.asTask (prio := .dedicated) do
-      let mut acc : Array UInt64 := #[]
-      let mut blk := lo + t
-      while blk < hi do
-        acc := acc.push (blockHash blk)
-        blk := blk + nt
-      return acc
-    let mut arrs : Array (Array UInt64) := #[]
-    for t in tasks do
-      match t.get with
-      | .ok arr => arrs := arrs.push arr
-      | .error e => throw e
-    for i in [0:hi - lo] do
-      out.putStrLn (hex (arrs[i % nt]!)[i / nt]!.toNat)
+  | "f2h_blocks" :: lo :: hi :: rest =>
+    let canon := rest == ["1"]
+    let res ← parBlocks lo.toNat! hi.toNat! (blockHash canon)
+    for r in res do out.putStrLn (hex r.toNat)
+  | "f2h_range" :: lo :: hi :: rest =>
+    let canon := rest == ["1"]
+    for x in [lo.toNat!:hi.toNat!] do
+      let r := f2h x
+      out.putStrLn (hex (if canon then canon16 r else r))
   | ["h2f_all"] => for h in [0:65536] do out.putStrLn (hex (h2f h))
   | ["gen_all"] => for h in [0:65536] do out.putStrLn (hex (h2fGen h))
   | ["round_all", n] => for h in [0:65536] do out.putStrLn (hex (roundN n.toNat! h))
   | ["class_all"] => for h in [0:65536] do out.putStrLn s!"{classBits h} {hex (neg h)}"
-  | ["f2h_range", lo, hi] => for x in [lo.toNat!:hi.toNat!] do out.putStrLn (hex (f2h x))
   | "f2h" :: xs => for x in xs do out.putStrLn (hex (f2h (parseHex x)))
   | "h2f" :: xs => for x in xs do out.putStrLn (hex (h2f (parseHex x)))
-  | _ => IO.eprintln "usage: drv_half f2h_blocks lo hi | h2f_all | gen_all | round_all n | class_all | f2h hex.. | h2f hex.."
+  | ["lut", fname, dmin, dmax] =>
+    let p := lutParams fname (parseHex dmin) (parseHex dmax)
+    for h in [0:65536] do out.putStrLn (hex (apply p h))
+  | ["arith_eval"] =>
+    let lines ← readLines (← IO.getStdin) #[]
+    let tbl := h2fTable
+    for l in lines do
+      match words l with
+      | [k, a, b] =>
+        let fa := tbl[parseHex a]!
+        let fb := if k == "h" then tbl[parseHex b]! else (parseHex b).toUInt32
+        out.putStrLn (" ".intercalate ((List.range 4).map fun op => hex (arithF op fa fb)))
+      | _ => pure ()
+  | ["arith_list"] =>
+    let lines ← readLines (← IO.getStdin) #[]
+    let tbl := h2fTable
+    let hs := ((words lines[0]!).map parseHex).toArray
+    let fs := ((words lines[1]!).map fun s => (parseHex s).toUInt32).toArray
+    let hrhs := hs.map fun b => tbl[b]!
+    let r1 ← parBlocks 0 hs.size fun i => arithRowHash tbl hs[i]! hrhs
+    let r2 ← parBlocks 0 hs.size fun i => arithRowHash tbl hs[i]! fs
+    for i in [0:hs.size] do out.putStrLn s!"{hex r1[i]!.toNat} {hex r2[i]!.toNat}"
+  | ["arith_blocks", lo, hi] =>
+    let tbl := h2fTable
+    let res ← parBlocks lo.toNat! hi.toNat! fun a => arithRowHash tbl a tbl
+    for r in res do out.putStrLn (hex r.toNat)
+  | _ => IO.eprintln "usage: drv_half f2h_blocks lo hi [canon] | f2h_range lo hi [canon] | h2f_all | gen_all | round_all n | class_all | lut f dmin dmax | arith_eval | arith_list | arith_blocks lo hi | f2h hex.. | h2f hex.."
